@@ -91,20 +91,42 @@ fn model_xml(namespace: &str, name: &str, version: &str, broken: bool) -> String
 
 /// The alphabet. Relations: A1/A2 identical keys, different text; B2 another version of B;
 /// C shares A's namespace; D shares A's name; E has B's namespace and A's name; F parses but
-/// does not build; G is byte-identical to B; H is disjoint.
+/// does not build; G is byte-identical to B; H is disjoint; I, J, K have keys that a normalising index
+/// would confuse with A's (case, trailing slash / space) or that need escaping (non-ASCII, space).
 pub fn alphabet() -> Vec<AlphaModel> {
-  let spec = ALPHA_SPEC;
-  spec
-    .iter()
-    .map(|(key, ns, name, version, broken)| AlphaModel {
-      key,
-      namespace: ns,
-      name,
-      version,
-      xml: model_xml(ns, name, version, *broken),
+  static CACHE: std::sync::OnceLock<Vec<AlphaModel>> = std::sync::OnceLock::new();
+  CACHE
+    .get_or_init(|| {
+      let mut all: Vec<AlphaModel> = ALPHA_SPEC
+        .iter()
+        .map(|(key, ns, name, version, broken)| AlphaModel {
+          key,
+          namespace: ns,
+          name,
+          version,
+          xml: model_xml(ns, name, version, *broken),
+        })
+        .collect();
+      // bulk models X00..X23: disjoint keys, only added by the `bulk` operation (to get past any threshold
+      // on the number of stored models)
+      for i in 0..BULK_MODELS {
+        let key: &'static str = Box::leak(format!("X{:02}", i).into_boxed_str());
+        let ns: &'static str = Box::leak(format!("urn:x:{:02}", i).into_boxed_str());
+        let name: &'static str = Box::leak(format!("mx{:02}", i).into_boxed_str());
+        all.push(AlphaModel {
+          key,
+          namespace: ns,
+          name,
+          version: key,
+          xml: model_xml(ns, name, key, false),
+        });
+      }
+      all
     })
-    .collect()
+    .clone()
 }
+
+pub const BULK_MODELS: usize = 24;
 
 /// Typed inputs of the echo decisions `echo_<input>` (input data must be typed in this implementation).
 pub const ECHO_INPUTS: [(&str, &str); 8] = [
@@ -119,7 +141,7 @@ pub const ECHO_INPUTS: [(&str, &str); 8] = [
 ];
 
 /// (key, namespace, name, version, broken)
-pub const ALPHA_SPEC: [(&str, &str, &str, &str, bool); 10] = [
+pub const ALPHA_SPEC: [(&str, &str, &str, &str, bool); 13] = [
   ("A1", "urn:a", "ma", "A1", false),
   ("A2", "urn:a", "ma", "A2", false),
   ("B", "urn:b", "mb", "B", false),
@@ -130,9 +152,13 @@ pub const ALPHA_SPEC: [(&str, &str, &str, &str, bool); 10] = [
   ("F", "urn:f", "mf", "F", true),
   ("G", "urn:b", "mb", "B", false),
   ("H", "urn:h", "mh", "H", false),
+  // keys that differ from A's only by case, by a trailing slash / space, and non-ASCII keys with a space
+  ("I", "urn:A", "MA", "I", false),
+  ("J", "urn:a/", "ma ", "J", false),
+  ("K", "urn:\u{e4}", "m\u{e4} \u{f6}", "K", false),
 ];
 
-pub const ALPHA_KEYS: [&str; 10] = ["A1", "A2", "B", "B2", "C", "D", "E", "F", "G", "H"];
+pub const ALPHA_KEYS: [&str; 13] = ["A1", "A2", "B", "B2", "C", "D", "E", "F", "G", "H", "I", "J", "K"];
 
 /// Facts about the alphabet established by running the code under test on each model alone
 /// (the oracle compares the code with itself, never with an outside notion of the right value).
